@@ -15,7 +15,7 @@ def run(chk):
     chk.explanation = ('P: the selection loop of CompositeDataSource.get returns an answer with the greatest modified time and None iff there are no answers '
                        '(prefix invariant); max is symmetric/associative, so the result does not depend on member order; utils.deduplicate keeps exactly one '
                        'entry per distinct (id, modified-or-created) (loop invariant over a key set); apply_common_filters (C12) carries the filter '
-                       'hand-down.  B: partitions of a 6-version population (overlapping copies, different versions) over 1-3 MemorySources in every '
+                       'hand-down.  B: partitions of a 6-version population (overlapping copies, different versions) over 1-3 members (MemorySources; every third case the first member is a FileSystemSource) in every '
                        'attachment order; get / all_versions / query with composite-attached filters; attached filters of composite and members unchanged by '
                        'answering, union restored after detaching; relationship graphs of 4 nodes with all '
                        'navigation options (type filter, source-only, target-only, extra filters) through a source, a store, a composite and an '
@@ -24,7 +24,7 @@ def run(chk):
         chk.prove(c); chk.canary(c)
     for name, claim in K.order_independence_lemma(): chk.lemma(name, claim)
 
-    pool = [d for l, d in D.pool() if l in ('id1.v1', 'id1.v2', 'id1.v3', 'id2.v1', 'id2.v2', 'file (unversioned SCO)')]
+    pool = [d for l, d in D.pool() if l in ('id1.v1', 'id1.v2', 'id1.v3', 'id2.v1', 'id2.v2', 'file (unversioned SCO)', 'UUIDv1 id (only object of its type)')]
     objs = [stix2.parse(d, allow_custom=True) for d in pool]
     key = D.version_key
 
@@ -42,10 +42,19 @@ def run(chk):
                 for order in itertools.permutations(range(k)):
                     yield tuple(tuple(key(o) for o in members[m]) for m in order), [members[m] for m in order]
 
+    import tempfile, shutil
+    fs_root = tempfile.mkdtemp(prefix='vf-c18-'); n_case = [0]
+
     def check_fed(case):
         sig, members = case
-        comp = CompositeDataSource()
-        for m in members: comp.add_data_source(MemorySource(stix_data=list(m)))
+        comp = CompositeDataSource(); n_case[0] += 1
+        for mi, m in enumerate(members):
+            if mi == 0 and n_case[0] % 3 == 0 and m:
+                # every third partition: the first member is a filesystem source holding the same objects
+                root = tempfile.mkdtemp(dir=fs_root); sink = stix2.FileSystemSink(root, allow_custom=True)
+                for o in m: sink.add(o)
+                comp.add_data_source(stix2.FileSystemSource(root, allow_custom=True))
+            else: comp.add_data_source(MemorySource(stix_data=list(m)))
         union = {key(o): o for m in members for o in m}
         for oid in {k[0] for k in union}:
             want_all = sorted((k for k in union if k[0] == oid), key=repr)
@@ -84,8 +93,9 @@ def run(chk):
         for sc, m in zip(srcs, members):
             if sorted((key(o) for o in sc.query()), key=repr) != sorted({key(o) for o in m}, key=repr):
                 return ('frame#member answers alone as before', f'members {sig}: a member queried on its own after composite use no longer returns its content', {})
-    chk.bounded('federation: partitions x attachment orders', list(partitions()), check_fed, classify=lambda c: c[0],
+    try: chk.bounded('federation: partitions x attachment orders', list(partitions()), check_fed, classify=lambda c: c[0],
                 bound='6 versions over 1-3 members, overlapping copies, every attachment order; assignment space sampled (' + ('400' if chk.tier == 'thorough' else '60') + ' per member count)')
+    finally: shutil.rmtree(fs_root, ignore_errors=True)
 
     # ---- relationship navigation
     ids = ['identity--' + D.U(10 + i) for i in range(4)]
